@@ -52,10 +52,19 @@ def main():
         disc = ct_obj(phiP, S, vs, factory=rng.choice(["StlDiscreteTimeSpecification", "StlDiscreteTimeOfflineSpecification"]))
         disc["dense"] = False
         disc["set_period"] = [P, "s", 0.1]
+        skip = []
+        if (ops_of(phiP) & TIMED) and rng.random() < 0.3:
+            # the same durations written with unit suffixes (default unit s, period P s): both monitors read the same text
+            import c08 as _c08
+            written, _st = _c08.write_ast(rng, phiP, 10 ** 9, "s")
+            text = "out = " + to_text(written, S)
+            dense["text"] = text; dense["written"] = written; dense["units"] = {"def": "s", "pnum": 1, "pden": 1, "punit": "s"}; dense["unit"] = "s"
+            disc["text"] = text; disc["unit"] = "s"
+            skip = ["parse.ast"]           # (the read-back of the discrete object is in samples; C08 checks it)
         wc = {v: [[k * P, wd[v][k]] for k in range(N)] for v in vs}
         evs = [ev_parse(1), ev_parse(2), ev_ct("evaluate", wc, 1),
                {"o": 2, "a": "dt_evaluate", "ts": [k * P for k in range(N)], "w": wd}]
-        cases.append(case([dense, disc], evs, [{"rel": "sampled_eq", "x": 1, "y": 2, "h": horizon(phi)}], P=P))
+        cases.append(case([dense, disc], evs, [{"rel": "sampled_eq", "x": 1, "y": 2, "h": horizon(phi)}], P=P, skip=skip))
     traces = runner.run_cases(cases)
     vs_, gen, dist = core.validate("C19", traces, module="TraceCt")
     rep.add_traces(traces, vs_, gen, dist, nontrivial_key=lambda c: c["objs"][0]["text"] + str(c["events"][2]["w"]))
